@@ -61,6 +61,18 @@ def field_update_key(prog, b, o):
                    op.get("c", op.get("m", {})).get("p")[-1].get("n") == pp[-1]["n"] for op in t.get("ops", []) if isinstance(op, dict))
         if same:
             return "%s.%s|%s" % (adt, pp[-1]["n"], o.kind)
+        # the old value was copied into a local first (let id = self.counter; self.counter = id + 1): still an update of the
+        # field if one operand is a local whose only definition is a copy of that field
+        for op in t.get("ops", []):
+            pl = op.get("c", op.get("m")) if isinstance(op, dict) else None
+            if not pl or pl.get("p"):
+                continue
+            defs = [st for blk in b.blocks for st in blk["stmts"] if st["place"]["l"] == pl["l"] and not st["place"]["p"]]
+            if len(defs) == 1 and defs[0]["rv"].get("k") == "use":
+                src = defs[0]["rv"]["a"].get("c", defs[0]["rv"]["a"].get("m", {}))
+                sp = src.get("p") or []
+                if sp and isinstance(sp[-1], dict) and sp[-1].get("n") == pp[-1]["n"] and sp[-1].get("a") == pp[-1]["a"]:
+                    return "%s.%s|%s" % (adt, pp[-1]["n"], o.kind)
     return None
 
 
